@@ -12,9 +12,12 @@ RULE = ("MSI flow ops: compound files from the harness' own CFB writer (sector s
         "of 1..4 rounds with either value of --no-extended-sig, SHA-1/256/384/512, in place or to a new file; after every round the "
         "directory of the result (every covered field of every entry, content digests, the imprint inside the PKCS#7 blob) and "
         "VerifyMSI's verdict are compared with the model's prediction, and the property predicates are evaluated on relic's output "
-        "(one signature stream, Ex stream iff extended, payload entries unchanged, verdict ok). Outside the hypotheses: names that "
-        "strings.EqualFold maps onto a signature name (lower/upper case, U+017F), storages carrying a signature name (refusal), "
-        "signature names below the root / __exmeta (tar form != direct walk). mut ops (C02): a really signed document is read back, "
+        "(one signature stream, Ex stream iff extended, payload entries unchanged, verdict ok). Embedded signed packages (sub-storages "
+        "holding streams named like the signature streams, one and two levels down, with and without signature streams in the root): "
+        "content on both digest paths since the repair of Fmsi-tar, untouched by signing. Refused inputs (model predicts the error "
+        "class, document must be unchanged): names that strings.EqualFold maps onto a signature name (lower/upper case, U+017F; "
+        "repair of Fmsi-fold), a root stream named __exmeta or MSI-decoding to a signature name, storages carrying a signature "
+        "name. mut ops (C02): a really signed document is read back, "
         "edited and laid out anew by the harness writer: byte flips in every stream, renames, bytes moved across the boundary of "
         "streams adjacent in the digest order, creation/modification time, state bits, CLSID of streams / storages / root, entries "
         "added and removed (empty and non-empty), the Ex stream flipped / emptied / shortened / removed / added, the signature stream "
@@ -262,10 +265,14 @@ def predicate(prop, op, il, cm, tag):
                 return ("Relic.Props.C03.msi_insert_fails_only_on_storage", "document unchanged", "round %d: signing was refused but the document differs" % (i + 1))
             if p.get("sign") != "ok":
                 if hyp and prop in ("C01", "C08"):
-                    return ("Relic.Props.C01.msi_sign_then_verify", "sign=ok", "round %d: signing failed on a document satisfying the hypotheses: %s" % (i + 1, p.get("sign")))
-                if t.get("strm") == "0" and p.get("sign") != "err:storage" and prop == "C01":
-                    return ("Relic.Props.C01.msi_sign_refuses_storage", "err:storage", "round %d: %s" % (i + 1, p.get("sign")))
+                    return ("Relic.Props.C01.msi_sign_ok_iff", "sign=ok", "round %d: signing failed on a document of the class: %s" % (i + 1, p.get("sign")))
+                want = "err:alias" if t.get("noalias") == "0" else ("err:tar-name" if t.get("safe") == "0" else ("err:storage" if t.get("strm") == "0" else None))
+                if want and p.get("sign") != want and prop == "C01" and t.get("okat") == "1" and i == 0:
+                    return ("Relic.Props.C01.msi_sign_ok_iff", want, "round %d: %s" % (i + 1, p.get("sign")))
                 continue
+            if not hyp and t.get("okat") == "1" and i == 0 and prop in ("C01", "C08"):
+                return ("Relic.Props.C01.msi_sign_ok_iff", "refusal (%s)" % _why(t),
+                        "round 1: a document outside the class (%s) was signed instead of refused" % _why(t))
             signed_once = True
             es = _entries(p.get("dir"))
             nsig = sum(1 for e in es if _name(e) == (SIGNAME, "2"))
